@@ -1,10 +1,10 @@
 package main
 
 import (
-	"sort"
 	"fmt"
 	"go/token"
 	"go/types"
+	"sort"
 	"strings"
 
 	"golang.org/x/tools/go/ssa"
@@ -14,7 +14,7 @@ import (
 
 func init() {
 	register(&Property{
-		ID: "C11",
+		ID:          "C11",
 		Explanation: "R1 (never outside the pool): for each implementation of stickycookie.CookieValue, every non-nil *url.URL returned by FindURL is an element of its urls argument (the value of a range over it) or the result of a nested FindURL on the same slice — never the URL parsed from the cookie. R2 (codec agreement): two-way codecs decode and compare exactly {Scheme,Host,Path} (shared with C02.R4); for the one-way hash codec the value fed to the hash when minting (Get) and when looking up (FindURL) is the same function applied to the URL. R3 (degrade, never reject): in both balancers' ServeHTTP no return and no error response lies between the cookie lookup and the normal selection; the request is pinned only on the 'present' edge (with a copy of the member's URL); the selection routine is not called on the pinned path; on the unpinned path with sticky sessions configured StickBackend is called with the URL the selection returned, before the request is handed downstream. R4: GetBackend maps http.ErrNoCookie to (nil,false,nil) and reports present = (url != nil); the AES codec returns an error and no URL on the authentication-failure and expiry edges and slices the decoded bytes only on an edge proving the decoded length exceeds the nonce size; the fallback codec consults 'to' with the same arguments whenever 'from' found nothing.",
 		NotDecided: []string{
 			"cryptographic unforgeability (AES-GCM, trusted); exact round trip of url.Parse(u.String()) for exotic URLs",
@@ -63,6 +63,60 @@ func elemOfParam(fn *ssa.Function, v ssa.Value, param int) bool {
 	return ok && ia.X == ssa.Value(fn.Params[param])
 }
 
+// memberOfPool: v (a *url.URL computed in fn) is nil or an element of fn's slice parameter #param:
+// the range variable over it, the result of a nested FindURL on the same slice, or the result of a
+// module function that is handed the slice and itself only returns its elements.
+func memberOfPool(p *Prog, fn *ssa.Function, v ssa.Value, param int, d int) bool {
+	if d > 4 {
+		return false
+	}
+	v = stripConv(v)
+	if isNilConst(v) || elemOfParam(fn, v, param) {
+		return true
+	}
+	if ph, ok := v.(*ssa.Phi); ok {
+		for _, e := range ph.Edges {
+			if e != ssa.Value(ph) && !memberOfPool(p, fn, e, param, d+1) {
+				return false
+			}
+		}
+		return true
+	}
+	var c *ssa.Call
+	if ex, isE := v.(*ssa.Extract); isE && ex.Index == 0 {
+		c, _ = ex.Tuple.(*ssa.Call)
+	} else if cl, isC := v.(*ssa.Call); isC {
+		c = cl
+	}
+	if c == nil {
+		return false
+	}
+	if cc, isI := IsInvoke(c, "FindURL"); isI && len(cc.Args) == 2 && cc.Args[1] == ssa.Value(fn.Params[param]) && param >= 1 && cc.Args[0] == ssa.Value(fn.Params[param-1]) {
+		return true
+	}
+	g := c.Common().StaticCallee()
+	if g == nil || !p.InModule(g) || g.Blocks == nil {
+		return false
+	}
+	j := -1
+	for i, a := range c.Common().Args {
+		if stripConv(a) == ssa.Value(fn.Params[param]) {
+			j = i
+		}
+	}
+	if j < 0 {
+		return false
+	}
+	n := 0
+	for _, ret := range Returns(g) {
+		n++
+		if !memberOfPool(p, g, ReturnOperand(ret, 0), j, d+1) {
+			return false
+		}
+	}
+	return n > 0
+}
+
 func runC11(p *Prog, r *Report) {
 	impls := cookieValueImpls(p)
 	r.Floor("C11.R1", len(impls), 4, "CookieValue implementations")
@@ -80,19 +134,7 @@ func runC11(p *Prog, r *Report) {
 				continue
 			}
 			nNon++
-			ok := elemOfParam(fu, v, 2)
-			if !ok {
-				// nested FindURL(raw, urls) on the same slice
-				var c *ssa.Call
-				if ex, isE := v.(*ssa.Extract); isE && ex.Index == 0 {
-					c, _ = ex.Tuple.(*ssa.Call)
-				}
-				if c != nil {
-					if cc, isI := IsInvoke(c, "FindURL"); isI && len(cc.Args) == 2 && cc.Args[1] == ssa.Value(fu.Params[2]) && cc.Args[0] == ssa.Value(fu.Params[1]) {
-						ok = true
-					}
-				}
-			}
+			ok := memberOfPool(p, fu, v, 2, 0)
 			r.Paths++
 			r.Check(ok, "C11.R1", fmt.Sprintf("%s: returned URL #%d is a member of the given pool", what, retOrdinal(fu, ret)), p.InstrPos(ret), "element of the urls argument (or nested FindURL on it)",
 				"FindURL can return a URL that is not an element of the pool slice it was given ("+truncate(BuildExpr(p, v, nil).String(), 100)+"): a forged cookie routes outside the pool")
@@ -307,6 +349,12 @@ func c11Serve(p *Prog, r *Report) {
 				okSel = true
 			}
 		}
+		if !okSel && pinStore != nil {
+			// any spelling of the flag (either polarity, switch forms): relational fixpoint over
+			// (request was pinned, flag values) — the selection must be unreachable once the pin was stored
+			withPin, _, okA := EventAt(fn, isOnlyInstr(pinStore), nil, sel)
+			okSel = okA && !withPin
+		}
 		r.Check(okSel, "C11.R3", sn+": pinning is independent of the rotation state", p.InstrPos(sel), "the selection routine is only called when the request was not pinned", "the selection routine can be called (advancing the rotation / failing on an empty rotation) for a request that is pinned by its cookie")
 		// StickBackend(chosen, w) before downstream on the unpinned, sticky-configured path
 		okArg := resultValue(sel, 0)(stick.Common().Args[1]) && stick.Common().Args[2] == ssa.Value(fn.Params[1])
@@ -508,9 +556,9 @@ func mutantsC11() []Mutant {
 		{Name: "pinned-also-selects", File: "roundrobin/rr.go", Old: "\tif !stuck {\n\t\turi, err := r.NextServer()", New: "\tif !stuck || r.index >= 0 {\n\t\turi, err := r.NextServer()", Expect: "C11.R3"},
 		{Name: "nocookie-is-error", File: "roundrobin/stickysessions.go", Old: "\t\tif errors.Is(err, http.ErrNoCookie) {\n\t\t\treturn nil, false, nil\n\t\t}\n", New: "", More: []Edit{{"roundrobin/stickysessions.go", "\t\"errors\"\n", ""}}, Expect: "C11.R4"},
 		{Name: "aes-expiry-inverted", File: sc + "aes_value.go", Old: "\t\tif clock.Now().UTC().After(clock.Unix(i, 0).UTC()) {", New: "\t\tif clock.Now().UTC().Before(clock.Unix(i, 0).UTC()) {", Expect: "C11.R4"},
+		{Name: "rb-servers-from-own-records", File: "roundrobin/rebalancer.go", Old: "\treturn rb.next.Servers()\n", New: "\tout := make([]*url.URL, len(rb.servers))\n\tfor i, srv := range rb.servers {\n\t\tout[i] = srv.url\n\t}\n\treturn out\n", Expect: "C11.R3"},
 	}
 }
-
 
 // ---- pool provenance ----
 
